@@ -296,6 +296,10 @@ size_t runForkedCases(size_t n, const std::string& outPath, int secondsPerCase,
 					  const std::function<void(size_t, std::string&)>& fn,
 					  const std::function<void(size_t, const std::string&, FILE*)>& onCrash, size_t memLimitMB = 0);
 
+// inside a forked case: record how far the case got; after a crash the parent can ask in which phase the case died
+void markPhase(int phase);
+int lastCrashPhase();
+
 using Cmd = int (*)(int, char**);
 struct Registry {
 	static std::map<std::string, Cmd>& cmds() {
